@@ -3340,15 +3340,19 @@ yin_parse_element_generic(struct lysp_yin_ctx *ctx, enum ly_stmt parent_stmt, st
         }
         while (ctx->xmlctx->status == LYXML_ELEMENT) {
             /* parse subelements */
+            new = NULL;
             ret = yin_parse_element_generic(ctx, (*element)->kw, &new);
-            LY_CHECK_GOTO(ret, cleanup);
-            if (!(*element)->child) {
-                /* save first */
-                (*element)->child = new;
-            } else {
-                last->next = new;
+            if (new) {
+                /* link it even on error so that it is freed with its parent */
+                if (!(*element)->child) {
+                    /* save first */
+                    (*element)->child = new;
+                } else {
+                    last->next = new;
+                }
+                last = new;
             }
-            last = new;
+            LY_CHECK_GOTO(ret, cleanup);
 
             assert(ctx->xmlctx->status == LYXML_ELEM_CLOSE);
             LY_CHECK_GOTO(ret = lyxml_ctx_next(ctx->xmlctx), cleanup);
@@ -3395,6 +3399,7 @@ yin_parse_extension_instance(struct lysp_yin_ctx *ctx, const void *parent, enum 
 {
     struct lysp_ext_instance *e;
     struct lysp_stmt *last_subelem = NULL, *new_subelem = NULL;
+    LY_ERR r;
     char *ext_name;
 
     assert(ctx->xmlctx->status == LYXML_ELEMENT);
@@ -3465,13 +3470,18 @@ yin_parse_extension_instance(struct lysp_yin_ctx *ctx, const void *parent, enum 
                 LY_CHECK_RET(yin_parse_extension_instance(ctx, e, LY_STMT_EXTENSION_INSTANCE, 0, &e->exts));
             } else { */
 
-            LY_CHECK_RET(yin_parse_element_generic(ctx, LY_STMT_EXTENSION_INSTANCE, &new_subelem));
-            if (!e->child) {
-                e->child = new_subelem;
-            } else {
-                last_subelem->next = new_subelem;
+            new_subelem = NULL;
+            r = yin_parse_element_generic(ctx, LY_STMT_EXTENSION_INSTANCE, &new_subelem);
+            if (new_subelem) {
+                /* link it even on error so that it is freed with the extension instance */
+                if (!e->child) {
+                    e->child = new_subelem;
+                } else {
+                    last_subelem->next = new_subelem;
+                }
+                last_subelem = new_subelem;
             }
-            last_subelem = new_subelem;
+            LY_CHECK_RET(r);
 
             assert(ctx->xmlctx->status == LYXML_ELEM_CLOSE);
             LY_CHECK_RET(lyxml_ctx_next(ctx->xmlctx));
